@@ -77,6 +77,10 @@ def gen(chk):
         st = G.rand_stack(rng, rng.choice([0, 1, 3]))
         sessions.append({"kind": "script", "argv": ["0x" + scr.hex()] + ["0x" + x.hex() for x in st],
                          "case": "script id=%%s scr=%s st=%s flags=%d sv=0 z=0 ls=1 cmds=%%s" % (G.hexs(scr), G.hexlist(st), STD), "walk": walk()})
+    # pushes near the top of the legal size: the listing line of a 520-byte push has 1040 hex digits (F55)
+    for nb in ((509, 520) if q else (507, 508, 509, 510, 515, 519, 520)):
+        scr = G.push(bytes(rng.randrange(256) for _ in range(nb))) + bytes([0x75, 0x51])
+        sessions.append({"kind": "script-bigpush", "argv": ["0x" + scr.hex()], "case": "script id=%%s scr=%s st=%s flags=%d sv=0 z=0 ls=1 cmds=%%s" % (G.hexs(scr), G.hexlist([]), STD), "walk": ["s"] * 4})
     # a pay-to-script-hash shaped script given directly, the redeem script being the LAST of several stack arguments (the top of the stack)
     import hashlib
     for _ in range(4 if q else 60):
